@@ -465,11 +465,21 @@ func ruleS3e(c *Ctx) {
 		c.anchorMissing("S3e", "pass1.estimateJumpSize")
 		return
 	}
-	if len(f.Params) != 2 {
-		c.fail("S3e", "estimateJumpSize|signature", c.L.Pos(f.Pos()), "undecided: expected (mnemonic, mode)")
+	// the mnemonic is the string parameter; the mode is the BitMode parameter, or — when the
+	// estimate is a method of the pass — the BitMode field of its receiver
+	var name, mode *ssa.Parameter
+	for _, prm := range f.Params {
+		if isStringType(prm.Type()) && name == nil {
+			name = prm
+		}
+		if namedTypeIs(prm.Type(), "pkg/cpu", "BitMode") {
+			mode = prm
+		}
+	}
+	if name == nil {
+		c.fail("S3e", "estimateJumpSize|signature", c.L.Pos(f.Pos()), "undecided: expected a mnemonic parameter")
 		return
 	}
-	name, mode := f.Params[0], f.Params[1]
 	paths, ok := enumPaths(f, 512)
 	if !ok {
 		c.fail("S3e", "estimateJumpSize|paths", c.L.Pos(f.Pos()), "undecided: too many paths")
@@ -549,7 +559,7 @@ func evalJumpGuard(p *pathInfo, cond ssa.Value, name, mode *ssa.Parameter, m, cl
 			// comparison with one specific conditional mnemonic: cannot be decided for the class
 			return false, false
 		}
-	case x == mode && k.Value.Kind() == constant.Int:
+	case ((mode != nil && x == ssa.Value(mode)) || (mode == nil && isFieldLoad(x, "BitMode"))) && k.Value.Kind() == constant.Int:
 		v, _ := constant.Int64Val(k.Value)
 		eq = (m == "16" && v == 16) || (m == "32" && v == 32)
 	default:
